@@ -69,7 +69,9 @@ def write_encodings(ctx: Ctx) -> set:
     for short in ("RTFDocument.write_rtf", "RTFDocument.write_docx", "RTFDocument.write_html", "RTFDocument.write_pdf"):
         fi = pm.func(short)
         for c in walk_no_nested(fi.node):
-            if isinstance(c, ast.Call) and isinstance(c.func, ast.Attribute) and c.func.attr in ("write_text",) or \
+            is_attr_open = isinstance(c, ast.Call) and isinstance(c.func, ast.Attribute) and c.func.attr == "open" and \
+                c.args and isinstance(c.args[0], ast.Constant) and any(ch in str(c.args[0].value) for ch in "wax") and "b" not in str(c.args[0].value)
+            if isinstance(c, ast.Call) and isinstance(c.func, ast.Attribute) and c.func.attr in ("write_text",) or is_attr_open or \
                     (isinstance(c, ast.Call) and dotted(c.func) == "open" and _mode_is_write(c)):
                 n += 1
                 enc = None
@@ -319,7 +321,7 @@ def r10_3(ctx: Ctx) -> None:
                           f"{path}: text {r} is written into the document without passing the character escaper")
         unk = S.has_unk(sh)
         if unk:
-            ctx.violation("R10.3", path, "unanalysable: " + unk[0], fi.where(), f"{path}: {unk[0]}")
+            ctx.gap("R10.3", f"{path}: {unk[0]}")
     ctx.floor("R10.3", 6)
 
 
